@@ -31,4 +31,13 @@ def refOp (j : Json) : Json :=
     Json.mkObj [("ok", Json.arr answers.toArray), ("exact", Json.bool (s.all Exec.Sentence.safeB && covered))]
   | _, _ => Json.mkObj [("err", "bad-spec")]
 
+/-- `c01.safe`: is every sentence of the specification range-restricted and aggregate-free (hypothesis of C01_decide and
+C06_core_safe)?  Also: which sentences are not. -/
+def safeOp (j : Json) : Json :=
+  match specOf j with
+  | some s => Json.mkObj [("safe", Json.bool (s.all Exec.Sentence.safeB)),
+                          ("unsafe_sentences", Json.arr ((s.zipIdx.filter (fun p => !Exec.Sentence.safeB p.1)).map
+                              (fun p => Json.num (JsonNumber.fromNat p.2))).toArray)]
+  | none => Json.mkObj [("err", "bad-spec")]
+
 end Cnl2aspModel.Core.Codec
